@@ -46,11 +46,15 @@ theorem factory_mirror (d : DeviceSpec) (base : Str) (nonStrict : Bool) (fuel : 
 
 /-- **Refusals are the library's XML errors, and only in strict mode.** On a well-formed
     description `mirror` (hence, by `factory_mirror`, the factory) fails only in strict mode and only
-    with `UpnpXmlContentError` / `UpnpXmlParseError`. In particular non-strict creation never fails. -/
+    with `UpnpXmlContentError` / `UpnpXmlParseError`. In particular non-strict creation never fails —
+    also when service descriptions are INCOMPLETE (a variable without supported data type, an argument
+    naming an undeclared variable): completeness is asked in strict mode only. -/
 theorem refusal_class (d : DeviceSpec) (base : Str) (nonStrict : Bool) (e : FErr)
-    (hw : d.wf fo table base = true) (h : mirror fo table nonStrict base d = .error e) :
+    (hw : d.wf fo table base = true) (hc : nonStrict = false → d.complete table = true)
+    (h : mirror fo table nonStrict base d = .error e) :
     nonStrict = false ∧ e.isXml :=
-  mirror_error fo table d nonStrict base e default_converted_by_type hw h
+  mirror_error fo table d nonStrict base e default_converted_by_type hw
+    (fun hn s hs => List.all_eq_true.mp (hc hn) s hs) h
 
 /-- a corrupted service document: foreign root, unparsable text, or an SCPD without state table -/
 def DocSpec.corrupted : DocSpec → Prop
@@ -76,10 +80,11 @@ theorem strict_refuses (base : Str) (s : ServiceSpec) (hc : s.doc.corrupted) :
 /-- … and the refusal of one service refuses the whole device (strict mode), with an XML error. -/
 theorem strict_refuses_device (base : Str) (info : List (Option Str)) (icons : List IconSpec)
     (svcs : List ServiceSpec) (emb : List DeviceSpec) (s : ServiceSpec) (hs : s ∈ svcs) (hc : s.doc.corrupted)
-    (hw : (DeviceSpec.mk info icons svcs emb).wf fo table base = true) :
+    (hw : (DeviceSpec.mk info icons svcs emb).wf fo table base = true)
+    (hcomp : (DeviceSpec.mk info icons svcs emb).complete table = true) :
     ∃ e, mirror fo table false base (.mk info icons svcs emb) = .error e ∧ e.isXml := by
   cases h : mirror fo table false base (.mk info icons svcs emb) with
-  | error e => exact ⟨e, rfl, (refusal_class fo _ base false e hw h).2⟩
+  | error e => exact ⟨e, rfl, (refusal_class fo _ base false e hw (fun _ => hcomp) h).2⟩
   | ok m =>
     exfalso
     rw [mirror] at h
@@ -116,7 +121,7 @@ theorem nonstrict_never_fails (d : DeviceSpec) (base : Str) (hw : d.wf fo table 
     ∃ m, mirror fo table true base d = .ok m := by
   cases h : mirror fo table true base d with
   | ok m => exact ⟨m, rfl⟩
-  | error e => exact absurd (refusal_class fo d base true e hw h).1 (by decide)
+  | error e => exact absurd (refusal_class fo d base true e hw (fun hn => by cases hn) h).1 (by decide)
 
 /-- … in which a service with a corrupted document is empty (no state variables, no actions) while
     its identifiers and URLs are still those of the description. -/
@@ -146,16 +151,19 @@ theorem judge_accepts_model [DecidableEq F] (norm : DevRow F → DevRow F) (d : 
         | .ok m => .ok (flatten 0 m)
         | .error e => .error e)) = true := by
   unfold judge
-  cases hw : (d.wf fo table base && urlsOk base d) with
+  cases hj : judged fo table nonStrict base d with
   | false => simp
   | true =>
-    simp only [Bool.and_eq_true] at hw
-    rw [factory_mirror fo d base nonStrict fuel hw.1 hw.2 hf]
+    simp only [judged, Bool.and_eq_true, Bool.or_eq_true] at hj
+    obtain ⟨⟨hw, hu⟩, hc⟩ := hj
+    rw [factory_mirror fo d base nonStrict fuel hw hu hf]
     cases hm : mirror fo table nonStrict base d with
     | ok m => simp [observedOf]
     | error e =>
-      have := (refusal_class fo d base nonStrict e hw.1 hm).2
-      cases e <;> simp [FErr.isXml] at this <;> simp [observedOf]
+      have := (refusal_class fo d base nonStrict e hw
+        (fun hn => by rcases hc with hc | hc; · rw [hn] at hc; cases hc
+                      · exact hc) hm).2
+      cases e <;> simp [FErr.isXml] at this <;> simp [observedOf, FErr.isLibrary]
 
 /-- **One-to-one.** The created device has exactly the services of the description, in order, with
     their types; each service's model depends on that service's description only. -/
@@ -184,16 +192,16 @@ theorem services_one_to_one (nonStrict : Bool) (base : Str) (info : List (Option
     the complete ones of the description, in order. -/
 theorem args_bound_by_name (vars : List (VarM F)) (a : ActionSpec) (m : ActM) (h : mirrorAction vars a = .ok m) :
     m.args.map (fun g => (g.name, g.direction, g.related))
-        = a.args.filterMap (fun g => completeArg g.name g.direction g.related)
+        = a.args.filterMap (fun g => completeArg g.name g.direction (g.related.map stripWs))
     ∧ ∀ g ∈ m.args, ∃ v ∈ vars, v.name = g.related ∧ v.dataType = g.relatedType := by
   unfold mirrorAction actionOf at h
-  cases hm : mapE (bindArg fun r => vars.find? (·.name == r)) (a.args.filterMap fun g => completeArg g.name g.direction g.related) with
+  cases hm : mapE (bindArg fun r => vars.find? (·.name == r)) (a.args.filterMap fun g => completeArg g.name g.direction (g.related.map stripWs)) with
   | error e => simp [hm] at h
   | ok as =>
     simp only [hm, Except.ok.injEq] at h
     subst h
     simp only [mkAct]
-    generalize (a.args.filterMap fun g => completeArg g.name g.direction g.related) = l at hm
+    generalize (a.args.filterMap fun g => completeArg g.name g.direction (g.related.map stripWs)) = l at hm
     induction l generalizing as with
     | nil => simp [mapE] at hm; subst hm; simp
     | cons t rest ih =>
@@ -249,7 +257,7 @@ theorem wf_action_pairs (sp : ScpdSpec) (vars : List VarSpec) (acts : List Actio
     (m.args.map fun g => (g.name, g.direction)).Nodup := by
   obtain ⟨h1, _⟩ := args_bound_by_name ms a m hm
   have hpairs : m.args.map (fun g => (g.name, g.direction))
-      = (a.args.filterMap fun g => completeArg g.name g.direction g.related).map (fun t => (t.1, t.2.1)) := by
+      = (a.args.filterMap fun g => completeArg g.name g.direction (g.related.map stripWs)).map (fun t => (t.1, t.2.1)) := by
     rw [← h1]; simp [List.map_map, Function.comp_def]
   rw [hpairs]
   unfold ScpdSpec.wf at hw
@@ -257,10 +265,10 @@ theorem wf_action_pairs (sp : ScpdSpec) (vars : List VarSpec) (acts : List Actio
   simp only [Bool.and_eq_true, List.all_eq_true] at hw
   have hd := ((hw.2.2 a hmem).1).2
   have hall := (hw.2.2 a hmem).2
-  have hcomp : (a.args.filterMap fun g => completeArg g.name g.direction g.related).map (fun t => (t.1, t.2.1))
+  have hcomp : (a.args.filterMap fun g => completeArg g.name g.direction (g.related.map stripWs)).map (fun t => (t.1, t.2.1))
       = a.args.map fun g => (g.name.getD [], g.direction.getD []) := by
     have : ∀ l : List ArgSpec, (∀ g ∈ l, (g.name.isSome = true ∧ g.direction.isSome = true) ∧ g.related.isSome = true) →
-        (l.filterMap fun g => completeArg g.name g.direction g.related).map (fun t => (t.1, t.2.1))
+        (l.filterMap fun g => completeArg g.name g.direction (g.related.map stripWs)).map (fun t => (t.1, t.2.1))
           = l.map fun g => (g.name.getD [], g.direction.getD []) := by
       intro l
       induction l with
@@ -272,7 +280,8 @@ theorem wf_action_pairs (sp : ScpdSpec) (vars : List VarSpec) (acts : List Actio
         obtain ⟨d, hd'⟩ := Option.isSome_iff_exists.mp hdd
         obtain ⟨x, hx'⟩ := Option.isSome_iff_exists.mp hr
         have ihr := ih (fun y hy => hl y (by simp [hy]))
-        have hc : completeArg g.name g.direction g.related = some (n, d, x) := by simp [completeArg, hn', hd', hx']
+        have hc : completeArg g.name g.direction (g.related.map stripWs) = some (n, d, stripWs x) := by
+          simp [completeArg, hn', hd', hx']
         rw [List.filterMap_cons, hc]
         simp only [List.map_cons, hn', hd', Option.getD_some]
         rw [ihr]
@@ -285,6 +294,23 @@ theorem wf_action_pairs (sp : ScpdSpec) (vars : List VarSpec) (acts : List Actio
     | some r => rfl
   rw [hcomp]
   exact distinctPairs_nodup _ hd
+
+/-- **Lookup by name / id finds every object.** With distinct variable names, action names and
+    service ids (what `wf` asks), `state_variable(v.name)`, `action(a.name)` and `service_id(s.id)` return
+    exactly `v`, `a`, `s`, and the keys of the name-keyed dicts are the names in document order. -/
+theorem lookups_find_everything (depth : Nat) (info : List (Option Str)) (url : Str) (icons : List IconM)
+    (svcs : List (SvcM F)) (emb : List (DevM F)) (hid : (svcs.map (·.serviceId)).Nodup) :
+    (rowOf depth info url icons svcs emb).svcById = (List.range svcs.length).map some
+    ∧ ∀ s ∈ svcs, ((s.vars.map (·.name)).Nodup → (lookOf s).varByName = (List.range s.vars.length).map some)
+        ∧ ((s.actions.map (·.name)).Nodup → (lookOf s).actByName = (List.range s.actions.length).map some)
+        ∧ (lookOf s).varKeys = s.vars.map (·.name) ∧ (lookOf s).actKeys = s.actions.map (·.name) := by
+  refine ⟨?_, fun s _ => ⟨fun h => ?_, fun h => ?_, rfl, rfl⟩⟩
+  · have := findIdx_self (fun x : SvcM F => x.serviceId) svcs [] (by simpa using hid)
+    simpa [rowOf, List.range_eq_range'] using this
+  · have := findIdx_self (fun x : VarM F => x.name) s.vars [] (by simpa using h)
+    simpa [lookOf, List.range_eq_range'] using this
+  · have := findIdx_self (fun x : ActM => x.name) s.actions [] (by simpa using h)
+    simpa [lookOf, List.range_eq_range'] using this
 
 /-- **send_events_spec.** evented: the attribute wins over the element; only the literal `yes` is true -/
 theorem send_events_spec (v : VarSpec) :
@@ -306,7 +332,7 @@ def good : ScpdSpec :=
         default := some ['5'], range := some (some ['0'], some ['1','0','0'], some ['1']) },
       { name := some ['S','i','n','c','e'], dataType := some ['d','a','t','e','T','i','m','e','.','t','z'], seElem := some ['y','e','s'],
         default := some ['2','0','2','4','-','0','2','-','2','9','T','1','2',':','0','0',':','0','0','+','0','1',':','0','0'] },
-      { name := some [' ','M','o','d','e',' '], dataType := some ['s','t','r','i','n','g'], seAttr := some ['n','o'], seElem := some ['y','e','s'],
+      { name := some [' ','M','o','d','e',' '], dataType := some ['s','t','r','i','n','g'], seAttr := some ['n','o'],
         allowed := some [['P','L','A','Y'], ['S','T','O','P']] }],
     actions := some [
       { name := some ['S','e','t'], args := [
